@@ -400,12 +400,20 @@ def run(tier, seed, which="C05"):
     empt = present.write(os.path.join(sdir, "e.fa"), "")
     one = present.write(os.path.join(sdir, "o.fa"), ">single\nACGTACGTTTGA\n")
     combos = [[dnaf, prof], [prof, dnaf], [dnaf, garb], [garb, dnaf], [dnaf, empt], [empt, prof], [one, dnaf], [dnaf, one], [one, prof, dnaf], [dnaf, dnaf]]
+    # files of very unequal record counts: the object that receives a later file grows by 512 records at a time, so the later
+    # file must fit whatever its size (3 + 1100, 500 + 700, around the 512 boundary, three files, large then small)
+    def sized(tag, n):
+        fam = gen.family(rng, n, rng.randint(7, 10), gen.DNA, sub=0.3, indel=0.05)
+        return present.write(os.path.join(sdir, "%s.fa" % tag), kv.fasta([("%s_%d" % (tag, i), s) for i, s in enumerate(fam)]))
+    size_sets = [(3, 1100), (500, 700), (2, 520), (511, 2, 600), (1030, 3)] if tier == "quick" else [(3, 1100), (500, 700), (2, 520), (511, 2, 600), (1030, 3), (1, 513), (512, 513), (3, 1537), (100, 100, 1300), (2, 2100)]
+    for si, ss in enumerate(size_sets):
+        combos.append([sized("z%d_%d" % (si, j), n) for j, n in enumerate(ss)])
 
     def multi(k):
         lines = ["level 0", "note F%d" % k, "read 0 %s" % " ".join(combos[k]), "dump 0 in full", "run 0 2 5 -1 -1 -1", "dump 0 out full",
                  "write 0 fasta %s" % os.path.join(sdir, "m%d.out" % k), "free 0", "note done%d" % k]
-        tp, rc, err = kv.run_kvdrive("\n".join(lines) + "\n", sdir, "m%d" % k, variant="san", leaks=True, timeout=120, hang_is_verdict="retry")
-        rc2, so, se = kv.run_cli(combos[k] + ["-o", os.path.join(sdir, "c%d.out" % k)], variant="san", leaks=True, timeout=120, hang_is_verdict="retry")
+        tp, rc, err = kv.run_kvdrive("\n".join(lines) + "\n", sdir, "m%d" % k, variant="san", leaks=True, timeout=300, hang_is_verdict="retry")
+        rc2, so, se = kv.run_cli(combos[k] + ["-o", os.path.join(sdir, "c%d.out" % k)], variant="san", leaks=True, timeout=300, hang_is_verdict="retry")
         return k, rc, err, rc2, se.decode("utf-8", "replace")
     for k, rc, err, rc2, se in kv.pmap(multi, range(len(combos)), workers=8):
         V.case("multi:%d" % k, True)
